@@ -350,7 +350,9 @@ def method_call(I, meth, base: AV, node, args, kwargs, fr):
     if k in ("nd", "da", "list", "mask") or (k is None and base.origins and any(o[0] in ("param", "parambuf") for o in base.origins)):
         if meth == "astype":
             ds = dtype_state(a0)
-            out = base.with_(origins=FRESH, var=None)
+            nocopy = any(kw.arg == "copy" and isinstance(kw.value, ast.Constant) and kw.value.value is False for kw in getattr(node, "keywords", []))
+            # astype(dtype, copy=False) returns the operand itself when the dtype already matches: it may alias
+            out = base.with_(kind="nd" if k == "da" else k) if nocopy else base.with_(origins=FRESH, var=None)
             if out.conn is not None:
                 out = out.with_(conn=(ds or out.conn[0], out.conn[1], out.conn[2]))
             elif ds and (base.vals or base.src):
